@@ -127,3 +127,47 @@ Example ex_nil_item :
 Proof. vm_compute. reflexivity. Qed.
 Example ex_nil_item_reported_as_error : p_holds 1%Z [(PAdd (-1)%Z, RDone); (PPop, ROther 1%Z)] = false.
 Proof. vm_compute. reflexivity. Qed.
+
+(* ---------------- held calls ----------------
+   The harness may start a call that has to block (an add-anyway on a full open queue, a pop on an empty open queue) and issue
+   ONE further call that releases it; the held call takes effect after the releasing one, so the case records them in that order.
+   What the model says about these two-call patterns: *)
+(* an add-anyway on a full open queue does not return and changes nothing *)
+Theorem p_anyway_full_blocks s x : closed s = false -> full (cap s) (length (items s)) = true -> p_add_anyway s x = (s, RNotIssued).
+Proof. intros Hc Hf. unfold p_add_anyway, p_add. now rewrite Hc, Hf. Qed.
+(* otherwise it is the ordinary add (in particular: refused on a closed queue, which is left unchanged) *)
+Theorem p_anyway_is_add s x : closed s = true \/ full (cap s) (length (items s)) = false -> p_add_anyway s x = p_add s x.
+Proof.
+  unfold p_add_anyway, p_add. intros [Hc|Hf]; [now rewrite Hc|]. destruct (closed s); [reflexivity|]. now rewrite Hf.
+Qed.
+(* released by a pop that makes room: the pop hands out the front item, then the add-anyway is accepted AT THE BACK *)
+Theorem p_held_anyway_released_by_pop s x y r : closed s = false -> items s = y :: r ->
+  (Z.of_nat (length (items s)) = cap s)%Z ->
+  h_run p_step s [PPopAnyway; PAddAnyway x] = ([(PPopAnyway, RItem y); (PAddAnyway x, RDone)], set_items s (r ++ [x])) /\
+  h_run p_step s [PPop; PAddAnyway x] = ([(PPop, RItem y); (PAddAnyway x, RDone)], set_items s (r ++ [x])).
+Proof.
+  intros Hc Hi Hl. cbn [h_run p_step]. unfold p_pop. rewrite Hi, Hc. cbn [andb].
+  unfold p_add_anyway, p_add. cbn [closed items cap set_items]. rewrite Hc.
+  assert (Hf : full (cap s) (length r) = false).
+  { destruct (full (cap s) (length r)) eqn:E; [|reflexivity]. apply full_spec in E. rewrite Hi in Hl. cbn [length] in Hl. lia. }
+  rewrite Hf. split; reflexivity.
+Qed.
+(* released by Close: refused as closed, nothing queued *)
+Theorem p_held_anyway_released_by_close s x :
+  h_run p_step s [PClose; PAddAnyway x] = ([(PClose, RDone); (PAddAnyway x, RClosed)], fst (p_close s)).
+Proof. cbn [h_run p_step p_close]. unfold p_add_anyway, p_add. cbn [closed fst]. reflexivity. Qed.
+(* a pop held on the empty open queue is released by an add (it gets that item, the queue is empty again) or by Close (closed) *)
+Theorem p_held_pop_released (s : C12_Pipe.pq) (x : Z) (chk : bool) : closed s = false -> items s = [] ->
+  h_run p_step s [PAdd x; if chk then PPop else PPopAnyway] =
+    ([(PAdd x, RDone); (if chk then PPop else PPopAnyway, RItem x)], set_items s []) /\
+  h_run p_step s [PPrior x; if chk then PPop else PPopAnyway] =
+    ([(PPrior x, RDone); (if chk then PPop else PPopAnyway, RItem x)], set_items s []) /\
+  h_run p_step s [PClose; if chk then PPop else PPopAnyway] =
+    ([(PClose, RDone); (if chk then PPop else PPopAnyway, RClosed)], {| items := []; closed := true; cap := cap s |}).
+Proof.
+  intros Hc Hi.
+  assert (Hf : full (cap s) (length (items s)) = false).
+  { destruct (full (cap s) (length (items s))) eqn:E; [|reflexivity]. apply full_spec in E. rewrite Hi in E. cbn [length] in E. lia. }
+  destruct chk; cbn [h_run p_step p_close]; unfold p_add, p_prior, p_pop; rewrite ?Hc, ?Hf, ?Hi; cbn [items closed cap set_items app andb fst];
+    rewrite ?Hc, ?Hi; cbn [andb]; repeat split; reflexivity.
+Qed.
